@@ -12,6 +12,7 @@ import (
 	"sync"
 
 	"golang.org/x/crypto/ssh"
+	"pgregory.net/rapid"
 
 	"verif/harness/internal/ev"
 	rw "verif/harness/internal/refsshwire"
@@ -69,12 +70,13 @@ func (m wmode) String() string {
 	return m.Cipher + "/" + m.MAC
 }
 
+// refusedModes lists CBC x EtM combinations the package refuses to construct.
+var refusedModes []string
+
 // wireModes enumerates cipherModes x macModes of the package (AEAD ciphers
 // once) and cross-checks the parameters with the reference tables.  problems
 // are harness trouble (a mode the reference does not know); mismatches are
 // deviations from the specifications' key / IV / MAC sizes.
-var refusedModes []string
-
 func wireModes() (modes []wmode, problems, mismatches []string) {
 	refusedModes = nil
 	for _, ci := range ssh.VerifWireCipherModes() {
@@ -100,7 +102,7 @@ func wireModes() (modes []wmode, problems, mismatches []string) {
 				mismatches = append(mismatches, fmt.Sprintf("MAC %s: package key/size/etm %d/%d/%v, specification %d/%d/%v", mi.Name, mi.KeySize, mi.Size, mi.ETM, ms.KeyLen, ms.Size, ms.ETM))
 			}
 			m := wmode{Cipher: ci.Name, MAC: mi.Name, CI: ci, MI: mi}
-			if isF9Class(m) {
+			if isF81Class(m) {
 				// a package that refuses to build CBC with an EtM MAC does not
 				// "support" the combination: nothing is written, nothing to check
 				if _, err := goCipher(m, makeSecrets(crypto.SHA256, newDRBG(3), 32), false); err != nil {
@@ -155,11 +157,11 @@ func goCipher(m wmode, s kexSecrets, serverToClient bool) (*ssh.VerifWirePacketC
 }
 
 // refState builds the reference state, deriving the keys independently.
-// For a mode in which finding F9 was observed in this run (see f9Observed) the
+// For a mode in which finding F81 was observed in this run (see f81Observed) the
 // reference follows what the package really does (encrypt-and-MAC with the
 // EtM algorithm's HMAC) so that everything else stays checked behind it.
 func refState(m wmode, s kexSecrets, serverToClient bool) (*rw.State, rw.Keys, error) {
-	if f9Observed(m) {
+	if f81Observed(m) {
 		return refStateAs(m, strings.TrimSuffix(m.MAC, "-etm@openssh.com"), s, serverToClient)
 	}
 	return refStateAs(m, m.MAC, s, serverToClient)
@@ -173,29 +175,29 @@ func refStateAs(m wmode, macName string, s kexSecrets, serverToClient bool) (*rw
 	return st, keys, err
 }
 
-// Finding F9: the CBC packet cipher ignores the EtM flag of the negotiated
-// MAC.  isF9Class is the exact class (CBC cipher x EtM MAC); f9Observed
+// Finding F81: the CBC packet cipher ignores the EtM flag of the negotiated
+// MAC.  isF81Class is the exact class (CBC cipher x EtM MAC); f81Observed
 // re-derives, once per mode and run, whether the defect is present: a packet
 // of the package's writer fails the PROTOCOL 1.5 (EtM) decoder but decodes as
 // an RFC 4253 encrypt-and-MAC packet under the same keys.
-func isF9Class(m wmode) bool {
+func isF81Class(m wmode) bool {
 	cs, _ := rw.CipherByName(m.Cipher)
 	return (cs.Kind == "cbc-aes" || cs.Kind == "cbc-3des") && !m.AEAD && m.MI.ETM
 }
 
 var (
-	f9Mu    sync.Mutex
-	f9Cache = map[string]bool{}
-	f9What  = map[string]string{}
+	f81Mu    sync.Mutex
+	f81Cache = map[string]bool{}
+	f81What  = map[string]string{}
 )
 
-func f9Observed(m wmode) bool {
-	if !isF9Class(m) {
+func f81Observed(m wmode) bool {
+	if !isF81Class(m) {
 		return false
 	}
-	f9Mu.Lock()
-	defer f9Mu.Unlock()
-	if v, ok := f9Cache[m.String()]; ok {
+	f81Mu.Lock()
+	defer f81Mu.Unlock()
+	if v, ok := f81Cache[m.String()]; ok {
 		return v
 	}
 	sec := makeSecrets(crypto.SHA256, newDRBG(9), 32)
@@ -211,27 +213,27 @@ func f9Observed(m wmode) bool {
 			p, errEM := asEM.Decode(7, buf.Bytes())
 			if errStrict != nil && errEM == nil && bytes.Equal(p.Payload, payload) {
 				observed = true
-				f9What[m.String()] = fmt.Sprintf("%v: the packet for a 10-byte payload at seq 7 (%s) is not an EtM packet (OpenSSH PROTOCOL 1.5: length in clear, MAC over seq||length||ciphertext): %v; it decodes as an RFC 4253 encrypt-and-MAC packet (length encrypted, MAC over the plaintext)", m, ev.Hex(buf.Bytes()), errStrict)
+				f81What[m.String()] = fmt.Sprintf("%v: the packet for a 10-byte payload at seq 7 (%s) is not an EtM packet (OpenSSH PROTOCOL 1.5: length in clear, MAC over seq||length||ciphertext): %v; it decodes as an RFC 4253 encrypt-and-MAC packet (length encrypted, MAC over the plaintext)", m, ev.Hex(buf.Bytes()), errStrict)
 			}
 		}
 	}
-	f9Cache[m.String()] = observed
+	f81Cache[m.String()] = observed
 	return observed
 }
 
-// f9Report handles the finding for one mode of the class: KNOWN-FINDING while
+// f81Report handles the finding for one mode of the class: KNOWN-FINDING while
 // listed, a violation otherwise.  It returns a non-empty violation text.
-func f9Report(c *ev.Collector, m wmode) string {
-	if !f9Observed(m) {
+func f81Report(c *ev.Collector, m wmode) string {
+	if !f81Observed(m) {
 		return ""
 	}
-	if _, listed := ev.IsKnownFinding("F9"); listed {
-		c.Known("F9 CBC ciphers (aes128-cbc, 3des-cbc) ignore the EtM flag of hmac-sha2-*-etm@openssh.com: packets are encrypt-and-MAC (length encrypted, MAC over plaintext) and do not decode under OpenSSH PROTOCOL 1.5; re-derived by the independent decoder")
+	if _, listed := ev.IsKnownFinding("F81"); listed {
+		c.Known("F81 CBC ciphers (aes128-cbc, 3des-cbc) ignore the EtM flag of hmac-sha2-*-etm@openssh.com: packets are encrypt-and-MAC (length encrypted, MAC over plaintext) and do not decode under OpenSSH PROTOCOL 1.5; re-derived by the independent decoder")
 		return ""
 	}
-	f9Mu.Lock()
-	defer f9Mu.Unlock()
-	return f9What[m.String()]
+	f81Mu.Lock()
+	defer f81Mu.Unlock()
+	return f81What[m.String()]
 }
 
 // countingReader serves a finite byte string and records how far beyond the
@@ -269,4 +271,25 @@ func guard(f func() error) (err error) {
 
 func isPanic(err error) bool {
 	return err != nil && len(err.Error()) >= 6 && err.Error()[:6] == "PANIC:"
+}
+
+// drawMode picks a mode with every cipher equally likely and, within a
+// cipher, every MAC equally likely.  rapid's integer generators favour small
+// values, which would starve the modes at the end of the table, so the drawn
+// number is spread by a hash first.
+func drawMode(rt *rapid.T, label string, modes []wmode) wmode {
+	v := rapid.Uint64().Draw(rt, label)
+	var b [8]byte
+	binary.BigEndian.PutUint64(b[:], v)
+	h := sha256.Sum256(b[:])
+	var ciphers []string
+	by := map[string][]wmode{}
+	for _, m := range modes {
+		if _, ok := by[m.Cipher]; !ok {
+			ciphers = append(ciphers, m.Cipher)
+		}
+		by[m.Cipher] = append(by[m.Cipher], m)
+	}
+	ms := by[ciphers[int(binary.BigEndian.Uint32(h[0:]))%len(ciphers)]]
+	return ms[int(binary.BigEndian.Uint32(h[4:]))%len(ms)]
 }
